@@ -17,6 +17,7 @@ import (
 	"sort"
 	"strings"
 	"testing"
+	"time"
 
 	"github.com/miekg/dns"
 	"github.com/semihalev/sdns/internal/verifshim/authsim"
@@ -76,6 +77,8 @@ func vkFlagSets() []h_resolver.Flags {
 }
 
 type vkWorld struct {
+	lastLog  int    // authsim log length when the previous scenario finished
+	lastScen string // previous scenario
 	rot int
 	u   *zonemodel.Universe
 	sim *authsim.Sim
@@ -361,6 +364,7 @@ type vkRunResult struct {
 	step      string // which ask failed
 	fired     []bool // per tamper: scripted exchange occurred and changed the response
 	upstream  int
+	elapsed   []string
 	outcomes  []string
 	firstPath []authsim.Query
 }
@@ -379,6 +383,11 @@ func (w *vkWorld) transformer(tm vkTamper) authsim.Transformer {
 
 // vkRun executes one scenario from a cold state and judges every reply of its history.
 func (w *vkWorld) vkRun(s vkScenario, history bool) vkRunResult {
+	if n := w.sim.Count(""); n != w.lastLog {
+		w.c.Add("straggler_scenarios", 1)
+		w.c.Note(fmt.Sprintf("upstream traffic after the last reply of a scenario (%d late queries): %s", n-w.lastLog, w.lastScen))
+	}
+	defer func() { w.lastLog, w.lastScen = w.sim.Count(""), s.String() }()
 	w.pl.Reset()
 	if s.NoAnchors {
 		_ = w.pl.SetTrustAnchors(nil)
@@ -391,6 +400,7 @@ func (w *vkWorld) vkRun(s vkScenario, history bool) vkRunResult {
 		r := w.pl.Ask(q.Name, q.Type, q.F, "tcp")
 		w.c.Add("evaluations", 1)
 		res.upstream += r.Upstream
+		res.elapsed = append(res.elapsed, r.Elapsed.Round(time.Millisecond).String())
 		v := w.vkJudge(q, r, s.NoAnchors)
 		res.outcomes = append(res.outcomes, v.Outcome)
 		if v.Viol != "" {
@@ -401,6 +411,9 @@ func (w *vkWorld) vkRun(s vkScenario, history bool) vkRunResult {
 	}
 	ok := ask("tampered resolution", s.Q)
 	res.firstPath = w.sim.Log()
+	if len(res.firstPath) > 40 {
+		w.c.Note(fmt.Sprintf("long path (%d upstream queries): %s", len(res.firstPath), s))
+	}
 	for _, lq := range res.firstPath {
 		for i, tm := range s.Tampers {
 			if lq.Scripted && lq.Changed && lq.Key() == (authsim.Key{Server: tm.Key.Server, QName: zonemodel.Canon(tm.Key.QName), QType: tm.Key.QType, Occ: tm.Key.Occ}) {
@@ -555,10 +568,18 @@ func (w *vkWorld) vkQueryCases(rot int, q vkQuery, kinds []vkKind) {
 	}
 	c.Outcome("baseline:" + r0.outcomes[0])
 	// determinism of the path itself
-	r0b := w.vkRun(base, false)
-	if vkPathStr(r0.firstPath) != vkPathStr(r0b.firstPath) {
-		c.HarnessError(fmt.Sprintf("untampered resolution path of %s is not repeatable: [%s] vs [%s]", q, vkPathStr(r0.firstPath), vkPathStr(r0b.firstPath)))
-		return
+	for try := 0; ; try++ {
+		r0b := w.vkRun(base, false)
+		if vkPathStr(r0.firstPath) == vkPathStr(r0b.firstPath) && r0.outcomes[0] == r0b.outcomes[0] {
+			break
+		}
+		c.Add("baseline_reruns", 1)
+		c.Note(fmt.Sprintf("untampered resolution of %s differed between two cold runs: %s %v [%s] vs %s %v [%s]", q, r0.outcomes[0], r0.elapsed, vkPathStr(r0.firstPath), r0b.outcomes[0], r0b.elapsed, vkPathStr(r0b.firstPath)))
+		if try == 3 {
+			c.HarnessError(fmt.Sprintf("untampered resolution path of %s is not repeatable", q))
+			return
+		}
+		r0 = w.vkRun(base, true)
 	}
 	c.Max("max_path_len", int64(len(r0.firstPath)))
 	c.Add("queries", 1)
